@@ -78,6 +78,24 @@ func CoreStepCheck(m *PktModel, w *world.World, ev *StepEvent) []explore.Finding
 			fs = append(fs, explore.Finding{Property: prop, Signature: sig, Detail: detail})
 		}
 	}
+	// a commitment is dropped only by the acknowledgement of exactly that packet (C03, first sentence)
+	if m.Props["C03"] && ev.Before != nil && ev.After != nil {
+		after := map[string]bool{}
+		for _, kv := range ev.After {
+			if kv.Store == "tibc" {
+				after[string(kv.K)] = true
+			}
+		}
+		for _, kv := range ev.Before {
+			k := string(kv.K)
+			if kv.Store != "tibc" || !strings.HasPrefix(k, "commitments/") || after[k] {
+				continue
+			}
+			if !(ev.Kind == "ack" && k == fmt.Sprintf("commitments/%s/%s/sequences/%d", ev.Pkt.SourceChain, ev.Pkt.DestinationChain, ev.Pkt.Sequence)) {
+				add("C03", "commitment-dropped-without-its-acknowledgement", k+" by "+ev.Label)
+			}
+		}
+	}
 	p := ev.Pkt
 	switch ev.Kind {
 	case "recv":
